@@ -25,7 +25,9 @@
 (* (":Seen" stands for \Seen); FlagCanon folds the case.                    *)
 (*                                                                         *)
 (* Normal forms (what the harness extracts from the wire, syntactically):   *)
-(*   every result   [st |-> "OK" | "NO", ...]; a NO carries nothing else    *)
+(*   every result   [st |-> "OK" | "NO", ...]; a NO carries nothing else;    *)
+(*                  "RO" for STORE/EXPUNGE/MOVE on a connection whose last   *)
+(*                  successful selection answered [READ-ONLY]                *)
 (*   sets           ascending sequences; flag sets in FlagOrder; names in   *)
 (*                  byte order                                             *)
 (*   UIDVALIDITY    rank of the value among the distinct values observed    *)
@@ -53,9 +55,9 @@
 (*  R5 RENAME renames the inferiors (RFC 3501 6.3.5 MUST); LSUB with a      *)
 (*     trailing % returns the unsubscribed parent of a subscribed name      *)
 (*     (RFC 3501 6.3.9 MUST).                                               *)
-(*  R6 EXAMINE: no command changes the mailbox (RFC 3501 6.3.2); STORE,     *)
-(*     EXPUNGE, MOVE answer NO, FETCH BODY[] does not set \Seen, CLOSE does *)
-(*     not expunge.                                                         *)
+(*  R6 EXAMINE: no command changes the mailbox (RFC 3501 6.3.2): STORE,     *)
+(*     EXPUNGE, MOVE have no effect (their OK/NO is not compared: normal    *)
+(*     form "RO"), FETCH BODY[] does not set \Seen, CLOSE does not expunge. *)
 (*  R7 SEARCH dates compare the day of the date-time as written,            *)
 (*     "disregarding time and timezone" (RFC 3501 6.4.4); strings match as  *)
 (*     case-insensitive substrings (same section; backend doc comment).     *)
@@ -232,6 +234,12 @@ KeyOK(k, count) ==
   /\ \A j \in 1..Len(k.sub) : KeyOK(k.sub[j], count)
 RECURSIVE KeyUidStar(_)
 KeyUidStar(k) == (k.k = "UID" /\ HasStar(k.set)) \/ \E j \in 1..Len(k.sub) : KeyUidStar(k.sub[j])
+(* a UID set of several ranges that holds '*' and a number above the highest UID *)
+StarBelowNumber(set, top) ==
+  Len(set) > 1 /\ HasStar(set) /\ \E i \in 1..Len(set) : set[i][1] > top \/ set[i][2] > top
+RECURSIVE KeyStarBelow(_, _)
+KeyStarBelow(k, top) == (k.k = "UID" /\ StarBelowNumber(k.set, top))
+                        \/ \E j \in 1..Len(k.sub) : KeyStarBelow(k.sub[j], top)
 
 -----------------------------------------------------------------------------
 (* FETCH *)
@@ -334,8 +342,12 @@ NewFlags(old, sop, fs) ==
     [] sop = "add" -> old \cup fs
     [] sop = "del" -> old \ fs
 
+(* R6: in a mailbox opened with EXAMINE a command that would change it changes nothing;  *)
+(* whether the server says OK or NO is not settled, the normal form of the result is "RO" *)
+Ro(S) == Res(S, [st |-> "RO"])
+
 DoStore(S, cmd) ==
-  IF S.cn[cmd.c].ro THEN No(S)
+  IF S.cn[cmd.c].ro THEN Ro(S)
   ELSE LET n == Sel(S, cmd.c)
            msgs == S.mb[n].msgs
            A == Addressed(msgs, cmd.uid, cmd.set)
@@ -348,7 +360,8 @@ DoStore(S, cmd) ==
 
 DoCopy(S, cmd, move) ==
   LET n == Sel(S, cmd.c) IN
-  IF ~Exists(S, cmd.name) \/ cmd.name = n \/ (move /\ S.cn[cmd.c].ro) THEN No(S)
+  IF move /\ S.cn[cmd.c].ro THEN Ro(S)
+  ELSE IF ~Exists(S, cmd.name) \/ cmd.name = n THEN No(S)
   ELSE LET msgs == S.mb[n].msgs
            A == Addressed(msgs, cmd.uid, cmd.set)
            s == SetToSeq(A)
@@ -362,7 +375,7 @@ DoCopy(S, cmd, move) ==
                    dst |-> [j \in 1..Len(s) |-> d.next + j - 1]])
 
 DoExpunge(S, cmd, byUid) ==
-  IF S.cn[cmd.c].ro THEN No(S)
+  IF S.cn[cmd.c].ro THEN Ro(S)
   ELSE LET n == Sel(S, cmd.c)
            msgs == S.mb[n].msgs
            E == {i \in 1..Len(msgs) : Deleted(msgs[i]) /\ (byUid => InSetMax(msgs[i].uid, cmd.set, TopUid(msgs)))}
@@ -462,8 +475,15 @@ Sig(S, cmd) ==
   ELSE IF cmd.op = "SEARCH" /\ (\E j \in 1..Len(cmd.keys) : KeyUidStar(cmd.keys[j])) /\ TopUidStale(S, cmd.c)
     THEN "uid-star/after-expunge-of-highest"
   ELSE IF cmd.op = "UIDEXPUNGE" /\ HasStar(cmd.set) /\ ~ro THEN "uid-star/uid-expunge"
+  ELSE IF sel # NoName /\ cmd.uid /\ cmd.op \in SetOps /\ StarBelowNumber(cmd.set, TopUid(SelMsgs(S, cmd.c)))
+    THEN "uid-star/with-number-above-highest"
+  ELSE IF cmd.op = "SEARCH" /\ (\E j \in 1..Len(cmd.keys) : KeyStarBelow(cmd.keys[j], TopUid(SelMsgs(S, cmd.c))))
+    THEN "uid-star/with-number-above-highest"
   ELSE IF cmd.op = "FETCH" /\ cmd.it.pi \in PartBigOffset THEN "partial/origin-truncated"
   ELSE IF cmd.op = "FETCH" /\ cmd.it.pi \in PartOverflow THEN "partial/overflow"
+  ELSE IF cmd.op \in {"COPY", "MOVE"} /\ Exists(S, cmd.name) /\ cmd.name # sel
+          /\ Addressed(SelMsgs(S, cmd.c), cmd.uid, cmd.set) = {}
+    THEN "copyuid/no-message-addressed"
   ELSE IF ro /\ (cmd.op \in {"STORE", "MOVE", "EXPUNGE", "UIDEXPUNGE", "CLOSE"}
                  \/ (cmd.op = "FETCH" /\ cmd.it.sec # 0 /\ ~cmd.it.peek))
     THEN "examine/write-permitted"
@@ -564,7 +584,7 @@ TypeOK ==
        /\ \A i \in 1..Len(mb[n].msgs) : MsgOK(mb[n].msgs[i])
        /\ n \in DOMAIN uvh /\ mb[n].uv \in Elems(uvh[n])
   /\ \A c \in 1..Conns : cn[c].ro \in BOOLEAN /\ (cn[c].sel = NoName \/ cn[c].sel \in DOMAIN mb)
-  /\ last.r.st \in {"OK", "NO", "INIT"}
+  /\ last.r.st \in {"OK", "NO", "RO", "INIT"}
 
 (* UIDs strictly increase inside a mailbox and stay below UIDNEXT *)
 UidsAscending ==
@@ -580,7 +600,7 @@ UidValidityDistinct ==
   /\ \A n \in DOMAIN uvh : \A i, j \in 1..Len(uvh[n]) : i # j => uvh[n][i] # uvh[n][j]
 
 (* every command of the alphabet that is explored has an outcome *)
-AllDefined == \A cmd \in Alphabet : Allowed(St, cmd) => Exec(St, cmd).r.st \in {"OK", "NO"}
+AllDefined == \A cmd \in Alphabet : Allowed(St, cmd) => Exec(St, cmd).r.st \in {"OK", "NO", "RO"}
 
 (* --- action properties --- *)
 SameBox(n) == n \in DOMAIN mb /\ n \in DOMAIN mb' /\ mb[n].uv = mb'[n].uv
